@@ -82,6 +82,10 @@ pub struct ChanCase {
     /// Producer `p` closes the channel after its `k`-th send.
     #[serde(default)]
     pub sender_close: Option<(u8, u8)>,
+    /// With `close_after`: the receiver is dropped instead of closed (every sender still waiting
+    /// for space must be resumed and fail; what the mailbox held is released with it).
+    #[serde(default)]
+    pub recv_drop: bool,
 }
 
 /// Handle operations on one task.
